@@ -10,6 +10,7 @@ package main
 
 import (
 	"fmt"
+	"go/token"
 	"go/types"
 	"sort"
 	"strings"
@@ -333,6 +334,15 @@ func (p *Program) frameCheck(fn *ssa.Function) []frameFinding {
 			if !ok {
 				continue
 			}
+			// the request's response writer belongs to the goroutine that serves the request:
+			// its queued client-state events and its header map are not synchronised, so a
+			// goroutine started with it (argument, or captured by the closure that is started)
+			// races with the handler and may outlive the response
+			for _, a := range goReach(g) {
+				if isResponseWriterType(a.Type()) {
+					add(ins, "go statement hands the request's response writer ("+a.Name()+" "+a.Type().String()+") to another goroutine: the handler's goroutine owns it (client-state events and headers are unsynchronised)")
+				}
+			}
 			for _, a := range g.Common().Args {
 				switch a.Type().Underlying().(type) {
 				case *types.Pointer, *types.Slice, *types.Map:
@@ -350,6 +360,80 @@ func (p *Program) frameCheck(fn *ssa.Function) []frameFinding {
 		}
 	}
 	return out
+}
+
+// goReach lists what a go statement makes reachable from the new goroutine:
+// its arguments and, for closures, their captured variables (a few levels deep).
+func goReach(g *ssa.Go) []ssa.Value {
+	var out []ssa.Value
+	seen := map[ssa.Value]bool{}
+	var walk func(v ssa.Value, d int)
+	walk = func(v ssa.Value, d int) {
+		if v == nil || seen[v] || d > 4 {
+			return
+		}
+		seen[v] = true
+		out = append(out, v)
+		switch x := v.(type) {
+		case *ssa.MakeClosure:
+			for _, b := range x.Bindings {
+				walk(b, d+1)
+			}
+		case *ssa.ChangeInterface:
+			walk(x.X, d+1)
+		case *ssa.MakeInterface:
+			walk(x.X, d+1)
+		case *ssa.UnOp:
+			if x.Op == token.MUL {
+				// a captured variable read back: what was stored in it
+				if al, ok := x.X.(*ssa.Alloc); ok && al.Referrers() != nil {
+					for _, r := range *al.Referrers() {
+						if st, ok := r.(*ssa.Store); ok && st.Addr == al {
+							walk(st.Val, d+1)
+						}
+					}
+				}
+			}
+		case *ssa.Alloc:
+			if x.Referrers() != nil {
+				for _, r := range *x.Referrers() {
+					if st, ok := r.(*ssa.Store); ok && st.Addr == x {
+						walk(st.Val, d+1)
+					}
+				}
+			}
+		}
+	}
+	c := g.Common()
+	walk(c.Value, 0)
+	for _, a := range c.Args {
+		walk(a, 0)
+	}
+	return out
+}
+
+// isResponseWriterType: an interface with the http.ResponseWriter methods, authboss's
+// ClientStateResponseWriter, or a pointer to either.
+func isResponseWriterType(t types.Type) bool {
+	for {
+		p, ok := t.(*types.Pointer)
+		if !ok {
+			break
+		}
+		t = p.Elem()
+	}
+	if n, ok := t.(*types.Named); ok && n.Obj().Pkg() != nil && n.Obj().Pkg().Path() == abPkg && n.Obj().Name() == "ClientStateResponseWriter" {
+		return true
+	}
+	it, ok := t.Underlying().(*types.Interface)
+	if !ok {
+		return false
+	}
+	has := map[string]bool{}
+	for i := 0; i < it.NumMethods(); i++ {
+		has[it.Method(i).Name()] = true
+	}
+	return has["WriteHeader"] && has["Header"] && has["Write"]
 }
 
 func writtenAfter(a ssa.Value, b *ssa.BasicBlock, idx int) bool {
